@@ -1,22 +1,53 @@
-(* C01 — expression evaluation (placeholder: kernels first). *)
-From Coq Require Import ZArith.
-From Cedar Require Import Base.Int64 Generated.Kernels Proofs.ArithProofs.
+(* C01 — expression evaluation follows the Cedar language semantics.
+   eval  = model of internal/eval (Impl/Eval.v: wrap-around arithmetic on the kernels regenerated from evalers.go, DFS `in`,
+           greedy `like` matcher, Go-style remainder in toDate/toTime);
+   seval = the declarative semantics (Lang/Spec.v).
+   Proofs: Proofs/EvalSpecProofs.v, ArithProofs.v, LikeProofs.v, InSearchProofs.v. *)
+From Coq Require Import ZArith List Bool.
+Import ListNotations.
+From Cedar Require Import Base.Int64 Lang.Value Lang.Expr Lang.Spec Impl.Like Impl.Eval Generated.Kernels
+  Proofs.ArithProofs Proofs.InSearchProofs Proofs.EvalSpecProofs.
+From Cedar Require Proofs.LikeProofs.
 Local Open Scope Z_scope.
 
-Theorem C01_checked_add : forall a b, in64 a -> in64 b ->
-  checkedAddI64 a b = (wrap64 (a + b), in64b (a + b)).
+(* the headline: same value or same error, for every expression, store and request whose numbers fit in 64 bits *)
+Theorem C01_eval_refines_spec : forall en e, env_ok en = true -> expr_ok e = true -> eval en e = seval en e.
+Proof. exact eval_refines_spec. Qed.
+
+(* results stay within 64 bits, so the hypothesis is an invariant *)
+Theorem C01_eval_preserves_range : forall en e v, env_ok en = true -> expr_ok e = true -> eval en e = Ok v -> num_ok v = true.
+Proof. exact eval_preserves_num_ok. Qed.
+
+(* the specification's `in` really is the reflexive-transitive closure of the parent relation *)
+Theorem C01_spec_in_is_reachability : forall st a b, spec_in_one st a b = true <-> reach_st st a b.
+Proof. exact spec_in_one_reach. Qed.
+
+(* the search never runs out of fuel (the evaluator always terminates with a value or a Cedar error) *)
+Theorem C01_eval_never_out_of_fuel : forall en e, no_fuel_node e = true -> eval en e <> Err EFuel.
+Proof. exact eval_never_out_of_fuel. Qed.
+
+(* the int64 kernels, as regenerated from evalers.go on every run, detect overflow exactly *)
+Theorem C01_checked_add : forall a b, in64 a -> in64 b -> checkedAddI64 a b = (wrap64 (a + b), in64b (a + b)).
 Proof. exact checked_add_spec. Qed.
-Theorem C01_checked_sub : forall a b, in64 a -> in64 b ->
-  checkedSubI64 a b = (wrap64 (a - b), in64b (a - b)).
+Theorem C01_checked_sub : forall a b, in64 a -> in64 b -> checkedSubI64 a b = (wrap64 (a - b), in64b (a - b)).
 Proof. exact checked_sub_spec. Qed.
 Theorem C01_checked_mul : forall a b, in64 a -> in64 b ->
   snd (checkedMulI64 a b) = in64b (a * b) /\ (in64b (a * b) = true -> fst (checkedMulI64 a b) = a * b).
 Proof. exact checked_mul_spec. Qed.
-Theorem C01_checked_neg : forall a, in64 a ->
-  checkedNegI64 a = (if in64b (- a) then wrap64 (- a) else 0, in64b (- a)).
+Theorem C01_checked_neg : forall a, in64 a -> checkedNegI64 a = (if in64b (- a) then wrap64 (- a) else 0, in64b (- a)).
 Proof. exact checked_neg_spec. Qed.
 
+(* the greedy matcher of Pattern.Match is the textbook wildcard semantics, for every pattern NewPattern can build *)
+Theorem C01_like : forall (cs : list (option str)) (s : str),
+  go_match (compile_pattern cs) s = LikeProofs.wmatch (LikeProofs.elems_of_raw cs) s.
+Proof. exact LikeProofs.like_spec. Qed.
+
+Print Assumptions C01_eval_refines_spec.
+Print Assumptions C01_eval_preserves_range.
+Print Assumptions C01_spec_in_is_reachability.
+Print Assumptions C01_eval_never_out_of_fuel.
 Print Assumptions C01_checked_add.
 Print Assumptions C01_checked_sub.
 Print Assumptions C01_checked_mul.
 Print Assumptions C01_checked_neg.
+Print Assumptions C01_like.
